@@ -779,6 +779,73 @@ impl<S: Service> Scenario for Ps2<S> {
 }
 
 // ------------------------------------------------------------------------------------------
+// a REJECTED open: node_a creates the service with max_nodes(1); node_b's open() of the same service is
+// refused (ExceedsMaxNumberOfNodes) after it passed the static-config verification.  Nothing of the failed
+// open may stay behind (no service tag of node_b, so node_b's directory can be removed).
+//   slots: node_a svc node_b publisher        (publisher on node_a's service handle)
+// ------------------------------------------------------------------------------------------
+struct OpenFail<S: Service> {
+    node_a: Option<Node<S>>,
+    svc: Option<publish_subscribe::PortFactory<S, u64, ()>>,
+    node_b: Option<Node<S>>,
+    publisher: Option<Publisher<S, u64, ()>>,
+}
+
+impl<S: Service> OpenFail<S> {
+    fn build(cfg: &Config, _nn: usize) -> Self {
+        let node_a = NodeBuilder::new().name(&node_name(0)).config(cfg).create::<S>().expect("node a");
+        let svc = node_a.service_builder(&service_name()).publish_subscribe::<u64>().max_nodes(1).create().expect("create service");
+        let node_b = NodeBuilder::new().name(&node_name(1)).config(cfg).create::<S>().expect("node b");
+        match node_b.service_builder(&service_name()).publish_subscribe::<u64>().open() {
+            Err(e) => {
+                let t = format!("{:?}", e);
+                assert!(t.contains("ExceedsMaxNumberOfNodes"), "open refused for another reason: {}", t);
+            }
+            Ok(_) => panic!("open of a service with max_nodes(1) by a second node succeeded"),
+        }
+        let publisher = svc.publisher_builder().create().expect("publisher");
+        OpenFail { node_a: Some(node_a), svc: Some(svc), node_b: Some(node_b), publisher: Some(publisher) }
+    }
+}
+
+impl<S: Service> Scenario for OpenFail<S> {
+    fn names(&self) -> Vec<&'static str> {
+        vec!["node_a", "svc", "node_b", "publisher"]
+    }
+    fn alive(&self, k: usize) -> bool {
+        match k { 0 => self.node_a.is_some(), 1 => self.svc.is_some(), 2 => self.node_b.is_some(), 3 => self.publisher.is_some(), _ => false }
+    }
+    fn drop_slot(&mut self, k: usize) {
+        match k { 0 => drop(self.node_a.take()), 1 => drop(self.svc.take()), 2 => drop(self.node_b.take()), 3 => drop(self.publisher.take()), _ => {} }
+    }
+    fn smoke(&mut self, k: usize, round: u64) -> Result<(), String> {
+        match k {
+            0 => node_smoke(self.node_a.as_ref().unwrap()),
+            1 => {
+                let s = self.svc.as_ref().unwrap();
+                let mut c = 0;
+                res(s.nodes(|_| { c += 1; CallbackProgression::Continue }))?;
+                if c == 1 { Ok(()) } else { Err(format!("service-lists-{}-nodes", c)) }
+            }
+            2 => {
+                // the refused node keeps working, and is refused again for the same reason while node_a's handle lives
+                let n = self.node_b.as_ref().unwrap();
+                node_smoke(n)?;
+                if self.svc.is_some() {
+                    match n.service_builder(&service_name()).publish_subscribe::<u64>().open() {
+                        Err(e) if format!("{:?}", e).contains("ExceedsMaxNumberOfNodes") => Ok(()),
+                        Err(e) => Err(format!("open-refused-with-{:?}", e).replace(' ', "_")),
+                        Ok(_) => Err("open-beyond-max-nodes-succeeded".into()),
+                    }
+                } else { Ok(()) }
+            }
+            3 => { res(self.publisher.as_ref().unwrap().send_copy(7000 + round))?; Ok(()) }
+            _ => Ok(()),
+        }
+    }
+}
+
+// ------------------------------------------------------------------------------------------
 // blackboard
 // ------------------------------------------------------------------------------------------
 struct Bb<S: Service> {
@@ -1112,7 +1179,7 @@ fn nth_permutation(n: usize, mut idx: u64) -> Vec<usize> {
 }
 
 fn nslots_of(pattern: &str, nn: usize) -> usize {
-    2 * nn + match pattern { "pubsub" => 4, "event" => 2, "reqres" => if nn == 1 { 5 } else { 4 }, "blackboard" => 4, "reqres2" => 7, "rrovf" => 6, "ps2" => 5, _ => 0 }
+    2 * nn + match pattern { "pubsub" => 4, "event" => 2, "reqres" => if nn == 1 { 5 } else { 4 }, "blackboard" => 4, "reqres2" => 7, "rrovf" => 6, "ps2" => 5, "openfail" => 2, _ => 0 }
 }
 
 fn orders(a: &[String], n: usize) -> Vec<Vec<usize>> {
@@ -1190,6 +1257,7 @@ fn run_variant<S: Service>(a: &[String], fs: bool) {
             "event" => run_perm::<S, Ev<S>>(variant, pattern, nn, fs, &order, case_no, &Ev::<S>::build, &Ev::<S>::recreate),
             "reqres" => run_perm::<S, ReqRes<S>>(variant, pattern, nn, fs, &order, case_no, &ReqRes::<S>::build, &ReqRes::<S>::recreate),
             "blackboard" => run_perm::<S, Bb<S>>(variant, pattern, nn, fs, &order, case_no, &Bb::<S>::build, &Bb::<S>::recreate),
+            "openfail" => run_perm::<S, OpenFail<S>>(variant, pattern, 1, fs, &order, case_no, &OpenFail::<S>::build, &PubSub::<S>::recreate),
             "ps2" => run_perm::<S, Ps2<S>>(variant, pattern, 1, fs, &order, case_no, &Ps2::<S>::build, &PubSub::<S>::recreate),
             "rrovf" => run_perm::<S, RrOvf<S>>(variant, pattern, 1, fs, &order, case_no, &RrOvf::<S>::build, &ReqRes::<S>::recreate),
             "reqres2" => run_perm::<S, ReqRes2<S>>(variant, pattern, 1, fs, &order, case_no, &ReqRes2::<S>::build, &ReqRes::<S>::recreate),
